@@ -195,6 +195,8 @@ def build(read):
     bt = parts.copy_item(b, read, "src/eval/bind.rs", "enum", "BindType")
     sel = parts.selectors_text(b, variants, [f1, f2, f3, mac])
 
+    f1, nexp = parts.expand_match_eval_expr(f1, mac, "eval::eval_expr")
+    b.edits.append(f"D4: the crate's `match_eval_expr!` macro expanded mechanically at {nexp} sites of bind_next (definition checked against /repo's macro text)")
     # A-lock: the cell reached through the evaluated value is a local here; mutation needs `mut`
     if f1.count("Value::List(items) => {") != 1 or f1.count("Value::Object(props) => {") != 2:
         from common import Undecided
@@ -209,7 +211,40 @@ def build(read):
         f1, "new_invalid_bind_error", "s: &str", "Result<()>",
         "r is Err && at(r->Err_0, *loc) && inner(r->Err_0) is InvalidBindTarget", "bind_next")
     b.edits.append("annotation: closures `new_loc_err`, `new_invalid_bind_error` given parameter types, named result and postconditions")
-    f1 = extract.annotate_fn(f1, spec=SPEC_NEXT)
+    f1 = extract.annotate_fn(f1, spec=SPEC_NEXT, body_start="    let ghost rhs0 = rhs;\n    let ghost op0 = op;\n")
+    # ---- the operation performed on the locked cell (ghost snapshots + labelled assertions)
+    f1 = extract.rewrite_once(f1, ".context(EvalListIndexFailed)?;\n",
+                              ".context(EvalListIndexFailed)?;\n                    let ghost l0 = items.0.0@;\n", "bind_next: list snapshot")
+    f1 = extract.rewrite_once(
+        f1, ".context(BinOpAssignListIndexFailed)?;\n",
+        ".context(BinOpAssignListIndexFailed)?;\n"
+        "                    proof { assert(items.0.0@ == l0.update(n as int, slot_after(l0[n as int], rhs0, op0)->0)); } // [C11:element_assignment_changes_only_position_i_to_v_or_old_op_v_and_keeps_the_length]\n",
+        "bind_next: list write effect")
+    f1 = extract.rewrite_once(f1, ".context(EvalObjectIndexFailed)?;\n",
+                              ".context(EvalObjectIndexFailed)?;\n                    let ghost m0 = props.0.0@;\n                    let ghost k = name@;\n",
+                              "bind_next: object snapshot (index path)")
+    f1 = extract.rewrite_once(
+        f1, ".context(BinOpAssignObjectIndexFailed)?;\n",
+        ".context(BinOpAssignObjectIndexFailed)?;\n"
+        "                        proof { assert(props.0.0@ == m0.insert(k, slot_after(m0[k], rhs0, op0)->0)); } // [C12:index_assignment_to_an_existing_key_replaces_exactly_that_property]\n",
+        "bind_next: object index write effect (existing key)")
+    f1 = extract.rewrite_regex_once(
+        f1, r"(OpOnUndefinedIndex\{name\}\);\s*\}\s*lock_deref!\(props\)\.insert\(name, rhs\);\n)",
+        r"\1                    proof { assert(!m0.contains_key(k) && props.0.0@ == m0.insert(k, rhs0)); } // [C12:index_assignment_to_an_absent_key_adds_exactly_that_property]\n",
+        "bind_next: object index write effect (new key)")
+    f1 = extract.rewrite_regex_once(
+        f1, r"(Value::Object\(mut props\) => \{\n)(\s*if let Some\(slot\) = lock_deref!\(props\)\.get_mut\(name\) \{\n)",
+        r"\1                    let ghost m0 = props.0.0@;\n\2", "bind_next: object snapshot (property path)")
+    f1 = extract.rewrite_once(
+        f1, ".context(BinOpAssignPropFailed)?;\n",
+        ".context(BinOpAssignPropFailed)?;\n"
+        "                        proof { assert(props.0.0@ == m0.insert(name@, slot_after(m0[name@], rhs0, op0)->0)); } // [C12:property_assignment_to_an_existing_key_replaces_exactly_that_property_like_index_assignment]\n",
+        "bind_next: object property write effect (existing key)")
+    f1 = extract.rewrite_regex_once(
+        f1, r"(OpOnUndefinedProp\{name\}\);\s*\}\s*lock_deref!\(props\)\.insert\(name, rhs\);\n)",
+        r"\1                    proof { assert(!m0.contains_key(name@) && props.0.0@ == m0.insert(name@, rhs0)); } // [C12:property_assignment_to_an_absent_key_adds_exactly_that_property_like_index_assignment]\n",
+        "bind_next: object property write effect (new key)")
+    b.edits.append("annotation: ghost snapshots of the locked cell and 6 labelled assertions stating the operation performed on it")
     f2 = extract.annotate_fn(f2, spec=SPEC_BOA)
     f3 = extract.annotate_fn(f3, spec=SPEC_BIND)
     setf = extract.annotate_fn(setf, spec="\n    ensures *final(slot) == v,\n")
